@@ -1,6 +1,6 @@
 (** C18 — bam.Merger returns a loss-free, ordered merge re-linked to the merged
     header.  Statements only; proofs in Proofs/MergeRun.v, Merger.v,
-    MergerTop.v, MergerHeap.v, MergerOrders.v, MergerFinal.v.
+    MergerTop.v, MergerHeap.v, MergerHeapOrd.v, MergerOrders.v, MergerFinal.v.
 
     Vocabulary (Model/Merger.v): an [input] is the list of records a
     bam.Reader delivers followed by io.EOF or by an error ([i_fail]);
@@ -16,7 +16,7 @@
     with the index of its input. *)
 From Coq Require Import ZArith List Bool Permutation Sorted.
 From Hts Require Import Base.Prim Model.Merger Proofs.MergeRun Proofs.Merger Proofs.MergerTop
-     Proofs.MergerHeap Proofs.MergerOrders Proofs.MergerFinal.
+     Proofs.MergerHeap Proofs.MergerOrders Proofs.MergerHeapOrd Proofs.MergerFinal.
 Import ListNotations.
 Open Scope Z_scope.
 
@@ -104,17 +104,30 @@ Theorem merge_cat_is_concatenation :
 Proof. exact cat_gen. Qed.
 Print Assumptions merge_cat_is_concatenation.
 
-(** Ordered output.  For every transitive relation [le], every less function
-    and every priority queue that meets the container/heap contract with
-    respect to bySortOrderAndID.Less (bag laws, no failure when the comparison
-    does not panic, an invariant under which Pop returns an element that is
-    [le]-below all that remain): if every input is sorted by [le] after
-    re-linking, the output is sorted by [le] — also when the merge is cut short
-    by an error.  The contract is the premise [pq_spec]: this is the part of
-    the statement that rests on container/heap; the transcription [goheap] is
-    proved to meet its bag and totality clauses (used above), its ordering
-    clause is exercised by the correspondence run only. *)
-Theorem merge_sorted_partial :
+(** Ordered output.  For every transitive relation [le] and every less function
+    that is compatible with it (it answers true only if a <= b and false only
+    if b <= a — LessByCoordinate answers true for two records without
+    reference in both directions, so less need not be a strict order): if
+    every input is sorted by [le] after re-linking, the output is sorted by
+    [le] — also when the merge is cut short by an error.  [goheap] is the
+    transcription of container/heap; that it keeps the heap order for such
+    comparisons is proved (Proofs/MergerHeapOrd.v), not assumed. *)
+Theorem merge_sorted :
+  forall links (le : rec -> rec -> Prop) less ins,
+    (forall a b c, le a b -> le b c -> le a c) -> less_compat le less ->
+    ins_ok links 0 ins -> ins_sorted links le 0 ins ->
+    exists outs e mf,
+      run_merge goheap links (Some less) ins = Ok (outs, e, mf) /\
+      StronglySorted le (map snd outs) /\ merge_result links ins outs e.
+Proof. exact sorted_goheap. Qed.
+Print Assumptions merge_sorted.
+
+(** The same for any priority queue that meets the container/heap contract
+    with respect to bySortOrderAndID.Less (bag laws, no failure when the
+    comparison does not panic, an invariant under which Pop returns an element
+    that is [le]-below all that remain): the merger's own logic does not
+    depend on how the queue is implemented. *)
+Theorem merge_sorted_any_queue :
   forall links (le : rec -> rec -> Prop) less pq wf ins,
     (forall a b c, le a b -> le b c -> le a c) ->
     pq_spec (rless less) (pq_init_of pq (rless less)) (pq_push_of pq (rless less))
@@ -124,25 +137,33 @@ Theorem merge_sorted_partial :
       run_merge pq links (Some less) ins = Ok (outs, e, mf) /\
       StronglySorted le (map snd outs) /\ merge_result links ins outs e.
 Proof. exact sorted_gen. Qed.
-Print Assumptions merge_sorted_partial.
+Print Assumptions merge_sorted_any_queue.
 
-(** The contract is satisfiable and sufficient: on the reference queue the
-    merge is sorted for the orders NewMerger selects — query name (Name,
-    bytewise), coordinate (reference order of the merged header, then
-    position, records without reference last) and the custom functions — with
-    no hypothesis left.  This uses that LessByName / LessByCoordinate / the
-    custom functions, and with them bySortOrderAndID.Less, lie between a total
-    preorder and its strict part. *)
-Theorem merge_sorted_reference_queue :
+(** The declared orders: for the less function NewMerger selects — query name
+    (Name, bytewise), coordinate (reference order of the merged header, then
+    position, records without reference last) and the custom functions — the
+    output is sorted in that order. *)
+Theorem merge_sorted_declared_orders :
   forall links so code less ins,
     pick_less so code = Some less ->
     ins_ok links 0 ins ->
     ins_sorted links (if so =? 2 then le_name else if so =? 3 then le_coord else le_custom code) 0 ins ->
     exists outs e mf,
-      run_merge listpq links (Some less) ins = Ok (outs, e, mf) /\
+      run_merge goheap links (Some less) ins = Ok (outs, e, mf) /\
       StronglySorted (if so =? 2 then le_name else if so =? 3 then le_coord else le_custom code) (map snd outs) /\
       merge_result links ins outs e.
 Proof. exact sorted_declared. Qed.
+Print Assumptions merge_sorted_declared_orders.
+
+(** The contract is met by a second, specification-level queue as well. *)
+Theorem merge_sorted_reference_queue :
+  forall links (le : rec -> rec -> Prop) less ins,
+    (forall a b c, le a b -> le b c -> le a c) -> less_compat le less ->
+    ins_ok links 0 ins -> ins_sorted links le 0 ins ->
+    exists outs e mf,
+      run_merge listpq links (Some less) ins = Ok (outs, e, mf) /\
+      StronglySorted le (map snd outs) /\ merge_result links ins outs e.
+Proof. exact sorted_listpq. Qed.
 Print Assumptions merge_sorted_reference_queue.
 
 (** sam.LessByCoordinate orders by the header's reference order, then position,
